@@ -422,10 +422,10 @@ reg("C07", fast=True,
              7: "CSV: a text containing CR LF does not round-trip",
              8: "CSV: a stream with CR LF inside a text decodes to something other than the same records with CR LF read as LF"},
     diffs={20: "model encoders differ byte-wise from the implementation's and a property clause fails"},
-    assumptions=["gob payload encoding is library code: assumed to round-trip (hypothesis of gob_roundtrip_assumed), sampled on every run; its framing is modelled",
+    assumptions=["gob payload encoding is library code: its round trip is sampled on every run, not proved; its framing is modelled",
                  "encoding/csv, net/textproto (MIME header block), time formatting and the easyjson lexer are library code: reference models (Model/Csv.v, Model/ResultCodec.v, Model/Json.v)",
                  "byte-wise differences between model and implementation encoders with all property clauses holding are declared don't-care (quoting style is free)"],
-    level_text="csv_record_roundtrip and csv_stream_roundtrip (every stream of results in the representable domain whose texts hold no CR LF decodes through the CSV codec to an equal sequence then end-of-stream; the MIME header block round trip mime_roundtrip is proved too for canonical distinct keys and clean values: csv_stream_roundtrip_in_domain), built from csv_fields_roundtrip (Go's CSV reader recovers every field sequence without CR LF, all contents, unbounded), rfc_csv_roundtrip (all fields), b64_roundtrip, dec_roundtrip; csv_crlf_refuted; csv_columns_documented - all proved in Coq; the JSON and gob round trips are established by the tie only; the CSV and JSON layouts of the model are written from the documentation and act as the independent readers; tie by differential runs of the three real codecs.",
+    level_text="csv_record_roundtrip and csv_stream_roundtrip (every stream of results in the representable domain whose texts hold no CR LF decodes through the CSV codec to an equal sequence then end-of-stream; the MIME header block round trip mime_roundtrip is proved too for canonical distinct keys and clean values: csv_stream_roundtrip_in_domain), built from csv_fields_roundtrip (Go's CSV reader recovers every field sequence without CR LF, all contents, unbounded), rfc_csv_roundtrip (all fields), b64_roundtrip, dec_roundtrip; csv_crlf_refuted; csv_columns_documented - json_stream_roundtrip (every stream of results in the domain through the JSON encoder and the independently written reader: string escaping json_string_roundtrip, RFC 3339 timestamps rfc3339_roundtrip over 1970..2199 with nanoseconds and whole-minute zones, numbers, base64 bodies, the headers object, the 12-member object parse) - all proved in Coq; the gob round trip is established by the tie only (its payload encoding is library code); the CSV and JSON layouts of the model are written from the documentation and act as the independent readers; tie by differential runs of the three real codecs.",
     technique="Coq round-trip proofs of the codec components; independent-reader differential correspondence",
     timeout={"quick": 900, "thorough": 3000})
 reg("C11", fast=True,
@@ -477,6 +477,6 @@ reg("C09", needs_cli=True,
              3: "results whose responses completed before the attack command was killed are missing from its output (results are held back instead of written as they arrive)"},
     diffs={10: "gob frame boundaries of the model do not cover the record boundaries", 11: "JSON line count differs from the record count"},
     assumptions=["gob payload is opaque; only its length-prefixed framing is modelled"],
-    level_text="frames_cut_prefix (length-prefixed frames: every cut yields exactly the complete frames before it) and lines_cut_prefix (newline framing) are proved in Coq for every stream and every cut offset; json_no_raw_newline shows the JSON encoder emits exactly one newline per record; tie: every cut offset of every generated stream decoded by the real decoders.",
+    level_text="frames_cut_prefix (length-prefixed frames: every cut yields exactly the complete frames before it) and lines_cut_prefix (newline framing) are proved in Coq for every stream and every cut offset; json_no_raw_newline (proved: the JSON encoder's text of a result in the domain contains no raw line break) shows it emits exactly one line per record; tie: every cut offset of every generated stream decoded by the real decoders.",
     technique="Coq prefix lemmas for the two framings over all cut offsets; exhaustive cut enumeration on the implementation",
     timeout={"quick": 900, "thorough": 3000})
